@@ -150,7 +150,7 @@ PROPS = {
         "rule": "cases = forkable histories as in C01-C04 (hub-like hold-until-LIB configuration 2 times in 3, all steps delivered); after a third of the blocks: a canonical snapshot, 2 requests by number around the window, sometimes a with-forks request, and up to 3 resumptions from cursors delivered earlier (New, Undo, 1/3 of the Irreversible ones; biased to recent ones), a third of them also through-cursor from a start around/below the cursor block. distinct = sha1 of header+ops; non-trivial = some burst contains an Undo or an Irreversible event",
         "trusted_base": FORKABLE_TB,
         "technique": "Lean 4 model of blocksFromCursor/blocksThroughCursor + pure-consumer monitor (Lean): burst applied to the consumer state at the cursor must end on the hub's live chain + differential correspondence of every burst",
-        "level_text": "Props/C05 (kernel-checked): resume_new_cursor_on_hub_chain — state level: for every hub state satisfying the forkable invariant (pending chain P) and every New cursor whose block and LIB are retained on the hub's chain (cursor LIB not above the hub LIB), the hub serves the cursor and the burst takes the consumer that stood at the cursor exactly onto the hub's own consumer state <LIB, P>; resume_undo_cursor_on_hub_chain — the same for an Undo cursor whose block is canonical again; resume_fork_cursor_on_hub — for a cursor on a forked-out block that the hub serves: undo walk to the junction, then as the New cursor on the junction; resume_equals_never_disconnected — with C01's history theorem everything delivered afterwards continues the discipline; non-vacuity examples by kernel evaluation. On an abstract chain: burst_takes_consumer_to_hub_chain — for a New cursor whose block and LIB lie on the hub's retained canonical chain, the burst applied to the consumer that stood at the cursor (resting on the cursor LIB, holding the canonical blocks up to the cursor block) ends exactly on the hub's current chain and final block: finalised pending blocks are announced oldest first, missed final blocks arrive new-and-irreversible, missed reversible blocks as New, nothing twice (the chain above the cursor LIB is split by height into four zones; the consumer semantics CS is the one of C01 extended with new-and-irreversible events). Also: nothing_at_or_below_cursor_lib, everything_above_cursor_block, fastPath_in_chain_order, nothing_new_below_cursor_block, final_events_exact (a final-only consumer gets exactly the canonical final blocks above the cursor LIB), refused_below_window / refused_without_chain (no source rather than a partial one), fork_cursor_shape (cursor on a fork: undo walk, newest first, all naming the junction, then the burst of the junction cursor). For Undo cursors and cursors on forks the consumer-level statement is decided by the Lean consumer-at-cursor monitor over every burst of the correspondence suite.",
+        "level_text": "Props/C05 (kernel-checked): resume_end_to_end_hub — hypotheses on the inputs only (hub forkable started empty, any consistent history, a New cursor retained on the hub chain, any later history): burst ++ everything delivered afterwards is accepted by the consumer that stood at the cursor. resume_new_cursor_on_hub_chain — state level: for every hub state satisfying the forkable invariant (pending chain P) and every New cursor whose block and LIB are retained on the hub's chain (cursor LIB not above the hub LIB), the hub serves the cursor and the burst takes the consumer that stood at the cursor exactly onto the hub's own consumer state <LIB, P>; resume_undo_cursor_on_hub_chain — the same for an Undo cursor whose block is canonical again; resume_fork_cursor_on_hub — for a cursor on a forked-out block that the hub serves: undo walk to the junction, then as the New cursor on the junction; resume_equals_never_disconnected — with C01's history theorem everything delivered afterwards continues the discipline; non-vacuity examples by kernel evaluation. On an abstract chain: burst_takes_consumer_to_hub_chain — for a New cursor whose block and LIB lie on the hub's retained canonical chain, the burst applied to the consumer that stood at the cursor (resting on the cursor LIB, holding the canonical blocks up to the cursor block) ends exactly on the hub's current chain and final block: finalised pending blocks are announced oldest first, missed final blocks arrive new-and-irreversible, missed reversible blocks as New, nothing twice (the chain above the cursor LIB is split by height into four zones; the consumer semantics CS is the one of C01 extended with new-and-irreversible events). Also: nothing_at_or_below_cursor_lib, everything_above_cursor_block, fastPath_in_chain_order, nothing_new_below_cursor_block, final_events_exact (a final-only consumer gets exactly the canonical final blocks above the cursor LIB), refused_below_window / refused_without_chain (no source rather than a partial one), fork_cursor_shape (cursor on a fork: undo walk, newest first, all naming the junction, then the burst of the junction cursor). For Undo cursors and cursors on forks the consumer-level statement is decided by the Lean consumer-at-cursor monitor over every burst of the correspondence suite.",
         "level_note": LEVEL_NOTE_COMMON, "explanation": "kernel-checked theorems about the burst functions for all inputs + a Lean pure-consumer monitor evaluated on the implementation's bursts (2500/30000 histories with up to 3 resumptions each) + differential comparison of every burst with the model",
     },
     "C06": {
@@ -172,7 +172,7 @@ PROPS = {
         "nontrivial": lambda suite, case, impl: any(l.startswith("impl ev newirr") for l in case["lines"]) and any(l.startswith("impl ev new ") for l in case["lines"]),
         "rule": "cases = a generated tree (22-37 blocks, forks, skipped numbers, LIB policies) whose canonical chain crosses one 100-block bundle boundary; merged files = the complete bundle below the boundary (real DBinBlockWriter), forked one-block files for every forked block (30% missing in a quarter of the cases); a real ForkableHub (kept 100 mostly, else 0/1/2/5) bootstrapped through one one-block pass up to a moment t0 at which its LIB has reached the end of the files; a real stream.New(...).Run started by number (anywhere from the root to the hub head, negative, at/after the stop block), from a delivered New/Undo/Irreversible cursor (half of them on blocks that end up forked out) or through a target cursor, default/final-only/custom filters, stop block in the files / on the boundary / in the hub window / on a skipped number / none; the remaining blocks reach the hub either inside the handler of delivery #k or when the stream is quiescent (the schedule). distinct = sha1 of header+body; non-trivial = the run delivers blocks from files and from the live hub (a handoff happened)",
         "technique": "Lean 4 simulation model of JoiningSource+Stream over the Forkable/HubBurst/FileSourceSeq/Resolver models with an explicit schedule of hub pushes + pure-consumer monitor (Lean) + differential correspondence against the real stream/hub/file source",
-        "level_text": "Props/C07 (kernel-checked): handoff_by_number_is_seamless — consumer level, for a start by block number: for every hub state satisfying the forkable invariant (pending chain P), every request for a block at or below the hub LIB retained on its chain, every parent-linked run of merged blocks whose last block is the parent of the first burst block, and every later history of blocks of one consistent tree, the file deliveries ++ the hub burst ++ everything the hub delivers afterwards is accepted by the push/pop consumer, which after the burst stands exactly on <LIB, P> (nothing missing, nothing twice) — built on Seam.headSegment_shape (the hub's retained chain = kept final blocks ++ entries of P, from the invariant) and C01's history theorem; non-vacuity example discharged by kernel evaluation. Simulation level (every store, hub, schedule of hub pushes, configuration): burst_starts_at_requested_block + handoff_replaces_file_side — at the handoff the file event is dropped and the hub's burst starts with exactly that block number, and the file side is discarded (LiveClean, simLoop_prefix: after the handoff no file event is ever delivered; deliveries are never retracted or reordered); non_new_event_is_delivered + undo_is_not_joinable — an Undo or Irreversible event coming out of the cursor resolver never triggers the handoff and is always delivered (the dropped-undo defect fixed by f47de1c). The consumer-level statement (one sequence following the discipline from the consumer state implied by the start point, every canonical block exactly once) depends on files and hub being views of one chain and is decided by the Lean stream monitors on the implementation's runs.", "level_note": LEVEL_NOTE_COMMON, "explanation": 'kernel-checked lemmas about the simulation model + Lean consumer monitors on runs of the real stream/hub/file source under explicit schedules (70/1500 runs)',
+        "level_text": "Props/C07 (kernel-checked): handoff_end_to_end_hub / handoff_end_to_end — hypotheses on the inputs only: the hub's forkable (started empty with hold-until-LIB, or on a known LIB) fed any history of blocks of one consistent block tree, a request for a block it retains at or below its LIB whose first answer block is the child of the last merged block, any later history: merged blocks ++ burst ++ everything delivered afterwards is accepted by the push/pop consumer (handoff_by_number_default_filter: also by the consumer behind the default step filter, which holds one parent-linked chain). handoff_by_number_is_seamless — consumer level, for a start by block number: for every hub state satisfying the forkable invariant (pending chain P), every request for a block at or below the hub LIB retained on its chain, every parent-linked run of merged blocks whose last block is the parent of the first burst block, and every later history of blocks of one consistent tree, the file deliveries ++ the hub burst ++ everything the hub delivers afterwards is accepted by the push/pop consumer, which after the burst stands exactly on <LIB, P> (nothing missing, nothing twice) — built on Seam.headSegment_shape (the hub's retained chain = kept final blocks ++ entries of P, from the invariant) and C01's history theorem; non-vacuity example discharged by kernel evaluation. Simulation level (every store, hub, schedule of hub pushes, configuration): burst_starts_at_requested_block + handoff_replaces_file_side — at the handoff the file event is dropped and the hub's burst starts with exactly that block number, and the file side is discarded (LiveClean, simLoop_prefix: after the handoff no file event is ever delivered; deliveries are never retracted or reordered); non_new_event_is_delivered + undo_is_not_joinable — an Undo or Irreversible event coming out of the cursor resolver never triggers the handoff and is always delivered (the dropped-undo defect fixed by f47de1c). The consumer-level statement (one sequence following the discipline from the consumer state implied by the start point, every canonical block exactly once) depends on files and hub being views of one chain and is decided by the Lean stream monitors on the implementation's runs.", "level_note": LEVEL_NOTE_COMMON, "explanation": 'kernel-checked lemmas about the simulation model + Lean consumer monitors on runs of the real stream/hub/file source under explicit schedules (70/1500 runs)',
     },
     "C13": {
         "suites": [("stream", 480, 4800), ("filesrc", 300, 4000)], "shards": {"stream": 12}, "props": ["C13"], "level": "proof", "suite_timeout": 2400,
